@@ -301,3 +301,14 @@ def expand_with_loops(site: Site, e: ast.expr) -> ast.expr:
             out = site.expand(ast.fix_missing_locations(_expand(out, sub)))
     return out
 
+
+def expand_per_alt(site: Site, e: ast.expr) -> list[ast.expr]:
+    """`e` with locals expanded, once per path alternative reaching the site (site.expand only expands what all alternatives agree on)"""
+    from sa.flow import expand as _expand
+
+    outs: dict[str, ast.expr] = {}
+    for a in site.state.alts or []:
+        x = _expand(e, {k: v for k, v in a.env.items() if k not in site.shadow})
+        outs.setdefault(ast.dump(x), x)
+    return list(outs.values()) or [e]
+
